@@ -162,6 +162,25 @@ def lp_prefix(p):
     return mk('lp_prefix', sig, pre, body)
 
 
+def line_long(p):
+    """a long line (L characters, L crosses 4096) followed by a short one, cut into four chunks at solver-chosen positions next to the thresholds (the text itself is concrete)"""
+    L = p['L']
+
+    def body(a):
+        x1, x2 = a
+        base = ''.join('abcdefghij'[i % 10] for i in range(L))
+        text = base + '\n' + 'tail'
+        c1 = [1, 2, L - 4096 if L > 4096 else 3][_sel(x1, 3)]
+        c2 = c1 + [4095, 4096, 4097][_sel(x2, 3)]
+        if c2 > len(text):
+            c2 = len(text) - 1
+        chunks = [text[:c1], text[c1:c2], text[c2:c2 + 1], text[c2 + 1:]]
+        got = _run(chunks, line.unframe())
+        exp = [text[:L], 'tail', 'END']
+        return got == exp or fail(L=L, cuts=[c1, c2, c2 + 1], observed_lengths=[len(x) if isinstance(x, str) else x for x in got], same=[g == e for g, e in zip(got, exp)])
+    return mk('line_long', [('x1', 'int'), ('x2', 'int')], ['0 <= x1 <= 2', '0 <= x2 <= 2'], body)
+
+
 def stub_valid(p):
     def run():
         ok = tinyio.validate()
@@ -174,7 +193,7 @@ def stub_valid(p):
     return run
 
 
-FAMILIES = {'line_rechunk': line_rechunk, 'line_items': line_items, 'lp_roundtrip': lp_roundtrip, 'lp_prefix': lp_prefix, 'stub_valid': stub_valid}
+FAMILIES = {'line_rechunk': line_rechunk, 'line_items': line_items, 'lp_roundtrip': lp_roundtrip, 'lp_prefix': lp_prefix, 'line_long': line_long, 'stub_valid': stub_valid}
 
 
 def obligations(tier, seed):
@@ -199,6 +218,8 @@ def obligations(tier, seed):
     for ps in (1, 2, 4, 8):
         for bo in ('little', 'big'):
             obs.append(Ob(PROP, 'lp_prefix', dict(prefix=ps, order=bo), budget=b, group='lp_prefix', bound=dict(prefix=ps, byteorder=bo, announced_length='any value the prefix can carry')))
+    for L in ((4097, 8200) if q else (4097, 8200, 70000)):
+        obs.append(Ob(PROP, 'line_long', dict(L=L), budget=b, group='line_long', bound=dict(line_length=L, cuts='solver-chosen next to 4096')))
     obs.append(Ob(PROP, 'line_rechunk', dict(L=3, c1=1, _twin='reach'), budget=60, expect='refute'))
     obs.append(Ob(PROP, 'lp_roundtrip', dict(lens=[1, 2], prefix=2, order='big', mode='trunc', _twin='reach'), budget=60, expect='refute'))
     return obs
